@@ -7,6 +7,7 @@ import (
 	"fmt"
 	"math"
 	"math/bits"
+	"strconv"
 	"strings"
 
 	"github.com/openacid/low/bmtree"
@@ -60,6 +61,27 @@ func init() {
 		b, l := c10Bits(a[1], h)
 		w := bmtree.NewPath(b|a[2].U64(), l, h)
 		return L(U(w), I32(bmtree.PathLen(w)), I32(bmtree.PathHeight(w)), Str(bmtree.PathStr(w)))
+	}
+	Exec["bmtree.PathStr/order"] = func(a []V) string {
+		h := a[0].I32()
+		s1 := bmtree.PathStr(c10Word(h, a[1]))
+		s2 := bmtree.PathStr(c10Word(h, a[2]))
+		return L(Int(strings.Compare(s1, s2)), Str(s1), Str(s2))
+	}
+	Exec["bmtree.PathStr/parse"] = func(a []V) string {
+		h := a[0].I32()
+		w := c10Word(h, a[1])
+		s := bmtree.PathStr(w)
+		v := uint64(0)
+		if s != "" {
+			var err error
+			v, err = strconv.ParseUint(s, 2, 64)
+			if err != nil {
+				panic(err)
+			}
+		}
+		l := int32(len(s))
+		return L(U(w), U(bmtree.NewPath(v<<uint(h-l), l, h)))
 	}
 	Exec["bmtree.NewPath/family"] = func(a []V) string {
 		h := a[0].I32()
@@ -322,7 +344,34 @@ func genC10Wide(g *Gen) {
 			key = strings.Join([]string{"fam", c10HB(h), c10LB(l, h), nk, c10Rel(v, l, rv, rl)}, "/")
 		}
 		g.Do("bmtree.NewPath/family", L(Int(h), c10Node(v, l), c10Node(rv, rl)), key)
+		// the same pair through the text of the paths
+		skey := ""
+		if key != "" {
+			skey = strings.Join([]string{"so", c10HB(h), c10Rel(v, l, rv, rl), c10LB(l, h), c10LB(rl, h)}, "/")
+		}
+		g.Do("bmtree.PathStr/order", L(Int(h), c10Node(v, l), c10Node(rv, rl)), skey)
 	}
+	parse := func(h int, v uint64, l int, bucket string) {
+		g.Stat(bucket)
+		key := ""
+		if l >= 1 {
+			lead := "lead1"
+			if v>>uint(l-1)&1 == 0 {
+				lead = "lead0"
+			}
+			key = strings.Join([]string{"sp", c10HB(h), c10LB(l, h), lead}, "/")
+		}
+		g.Do("bmtree.PathStr/parse", L(Int(h), c10Node(v, l)), key)
+	}
+	for h := 0; h <= 32; h++ {
+		for l := 0; l <= h; l++ {
+			ones := uint64(1)<<uint(l) - 1
+			for _, v := range []uint64{0, ones, ones >> 1, ones &^ (ones >> 1), 0xaaaaaaaaaaaaaaaa & ones, 1 & ones, g.R.U64() & ones, g.R.U64() & ones} {
+				parse(h, v, l, "parse-grid")
+			}
+		}
+	}
+	g.Exhaust = append(g.Exhaust, "PathStr/parse: heights 0..32 x all lengths x 8 prefixes")
 	maxh := g.N(5, 6)
 	for h := 0; h <= maxh; h++ {
 		for l := 0; l <= h; l++ {
